@@ -83,6 +83,7 @@ var totalFuncs = []struct{ name, rel, fn string }{
 	{"gtab.readGpos2_1", "opentype/gtab/gpos.go", "readGpos2_1"},
 	{"gtab.readGpos2_2", "opentype/gtab/gpos.go", "readGpos2_2"},
 	{"gtab.readGpos3_1", "opentype/gtab/gpos.go", "readGpos3_1"},
+	{"gtab.readGpos5_1", "opentype/gtab/gpos5.go", "readGpos5_1"},
 	{"anchor.Read", "opentype/anchor/anchor.go", "Read"},
 	{"markarray.Read", "opentype/markarray/markarray.go", "Read"},
 }
